@@ -631,7 +631,7 @@ fn check_order_ulp(i: u64, r: &mut Report) {
     let tri = |w: [f32; 3], a: [f32; 3]| STri { v: std::array::from_fn(|k| [corners[k][0] * w[k], corners[k][1] * w[k], 0.5 * w[k], w[k]]), a };
     let t = tri(tilt, PERMS[0]);
     let solo_scene = Scene { tris: vec![t.clone()], bw: 8, bh: 8, vp: (0, 0, 8, 8) };
-    let Ok(o) = render_scene(&solo_scene, None, Door::Render, TargetKind::Owned, &ctx_plain(), Discard::Never, None) else { return; };
+    let o = match render_scene(&solo_scene, None, Door::Render, TargetKind::Owned, &ctx_plain(), Discard::Never, None) { Ok(o) => o, Err(p) => { r.violation(format!("render-panic|ulp-aimed|{}", short(&solo_scene)), p, obj! {"kind" => "order-ulp", "i" => i}); return; } };
     if o.color[p] == color_sentinel(p) { r.h("ulp-aimed:pixel-not-covered"); return; }
     let d = o.depth.unwrap()[p];
     let want = f32::from_bits((d.to_bits() as i32 + delta) as u32);
@@ -658,6 +658,27 @@ fn far_pool() -> Vec<STri> {
     vec![mk(f0, 900.0, 0.1), mk(f1, 900.2, 0.3), mk(f2, 900.4, 0.5), mk(f1, 500.0, 0.2), mk(f2, 500.07, 0.4), mk(f0, 500.14, 0.6)]
 }
 
+/// Painter clause at scale: `n` overlapping flat layers at distinct depths (0.07 % apart) submitted in a scrambled order in
+/// ONE call: depth test off + BackToFront must give the depth-buffered image. Both runs rasterize the same triangles, so
+/// the colour buffers must be identical, pixel for pixel.
+fn check_painter_scale(n: usize, r: &mut Report) {
+    r.eval();
+    let (e22, e23) = (10.1f32 / 9.9, -2.0f32 / 9.9);
+    let foot = [[[-0.9f32, -0.9], [0.9, -0.8], [-0.1, 0.9]], [[-0.7, 0.8], [0.8, 0.7], [0.0, -0.9]], [[-0.9, -0.2], [0.9, -0.3], [0.9, 0.6]], [[-0.5, -0.9], [0.7, 0.2], [-0.8, 0.7]]];
+    let tris: Vec<STri> = (0..n).map(|k| { let j = (k * 7919 + 13) % n; let w = 1.0 + j as f32 * 0.002; let xy = foot[k % 4]; let a = (j % 97) as f32 / 100.0; STri { v: std::array::from_fn(|c| [xy[c][0] * w, xy[c][1] * w, e22 * w + e23, w]), a: [a, a + 0.003, a + 0.006] } }).collect();
+    let sc = Scene { tris, bw: 8, bh: 8, vp: (0, 0, 8, 8) };
+    let case = || obj! {"kind" => "painter-scale", "n" => n as u64};
+    let painter = Context { depth_test: None, depth_sort: Some(DepthSort::BackToFront), ..ctx_plain() };
+    match (render_scene(&sc, None, Door::Render, TargetKind::Owned, &painter, Discard::Never, None), render_scene(&sc, None, Door::Render, TargetKind::Owned, &ctx_plain(), Discard::Never, None), render_scene(&sc, None, Door::Render, TargetKind::ColorOnly, &Context { depth_sort: Some(DepthSort::BackToFront), ..ctx_plain() }, Discard::Never, None)) {
+        (Ok(a), Ok(b), Ok(c)) => {
+            if let Some(p) = (0..64).find(|&p| a.color[p] != b.color[p]) { r.violation(format!("painter|scale|n={n}"), format!("{n} layers in one call: with the depth test off and back-to-front sorting pixel {p} holds {:#x}, the depth-buffered image has {:#x}", a.color[p], b.color[p]), case()); return; }
+            if let Some(p) = (0..64).find(|&p| c.color[p] != b.color[p]) { r.violation(format!("painter|scale|colour-only|n={n}"), format!("{n} layers in one call on a colour-only target with back-to-front sorting: pixel {p} holds {:#x}, the depth-buffered image has {:#x}", c.color[p], b.color[p]), case()); return; }
+            r.nontrivial(); r.h("painter-scale-checked");
+        }
+        _ => { r.violation(format!("render-panic|painter-scale|n={n}"), "render panicked".into(), case()); }
+    }
+}
+
 fn run_order(cfg: &Cfg) -> ! {
     let quick = cfg.quick();
     let pool = order_pool();
@@ -674,6 +695,7 @@ fn run_order(cfg: &Cfg) -> ! {
         r.sample(i, || obj! {"scene_triangles" => scenes[i as usize].clone(), "example_history" => "render([2,0], FrontToBack) ; render([1], None)"});
     });
     rep.merge(par_range(cfg, 640, check_order_ulp));
+    rep.merge(par_range(cfg, 5, |i, r| check_painter_scale([300usize, 1024, 1025, 2100, 3001][i as usize], r)));
     {
         let fp = far_pool();
         let mut fs: Vec<Vec<usize>> = vec![];
@@ -696,20 +718,25 @@ fn signed_area_screen(t: &STri, vp: (u32, u32, u32, u32)) -> Option<f64> {
     Some((s[1][0] - s[0][0]) * (s[2][1] - s[0][1]) - (s[1][1] - s[0][1]) * (s[2][0] - s[0][0]))
 }
 
-fn check_config(scene: &Scene, flags: u32, discard: Discard, kind: TargetKind, r: &mut Report) {
+fn check_config(scene: &Scene, flags: u32, discard: Discard, kind: TargetKind, r: &mut Report) { check_config_door(scene, flags, discard, kind, Door::Render, r) }
+
+/// `door`: the entry point used for every render call of the check (render(), Batch, or Camera::render with the library's
+/// closure-based Shader wrapper; the colour written is the attribute's bit pattern, so about one fragment in 256 carries
+/// a colour whose alpha byte is 0)
+fn check_config_door(scene: &Scene, flags: u32, discard: Discard, kind: TargetKind, door: Door, r: &mut Report) {
     r.eval();
     let ctx = ctx_from(flags);
-    let case = || obj! {"kind" => "config", "scene" => scene_json(scene), "flags" => flags, "discard" => format!("{discard:?}"), "target" => format!("{kind:?}")};
-    let tag = format!("flags{flags}|{discard:?}|{kind:?}|{}", short(scene));
-    let out = match render_scene(scene, None, Door::Render, kind, &ctx, discard, None) { Ok(o) => o, Err(p) => { r.violation(format!("render-panic|{tag}"), p, case()); return; } };
+    let case = || obj! {"kind" => "config", "scene" => scene_json(scene), "flags" => flags, "discard" => format!("{discard:?}"), "target" => format!("{kind:?}"), "door" => format!("{door:?}")};
+    let tag = format!("flags{flags}|{discard:?}|{kind:?}{}|{}", if door == Door::Render { String::new() } else { format!("|{door:?}") }, short(scene));
+    let out = match render_scene(scene, None, door, kind, &ctx, discard, None) { Ok(o) => o, Err(p) => { r.violation(format!("render-panic|{tag}"), p, case()); return; } };
     let px = (scene.bw * scene.bh) as usize;
     let has_depth = kind != TargetKind::ColorOnly && kind != TargetKind::ColorOnlySub;
     // independent expectations -------------------------------------------------
     // which triangles survive culling: harness-side on-screen winding of unclipped triangles
     // reference run: no culling, no test, everything written -> per-pixel fragment counts via twin runs
-    let twin = |ctx: Context, discard: Discard, kind: TargetKind| render_scene(scene, None, Door::Render, kind, &ctx, discard, None);
+    let twin = |ctx: Context, discard: Discard, kind: TargetKind| render_scene(scene, None, door, kind, &ctx, discard, None);
     let base_ctx = Context { depth_test: None, color_write: true, depth_write: true, depth_sort: ctx.depth_sort, face_cull: ctx.face_cull, ..Context::default() };
-    let Ok(base) = twin(base_ctx, Discard::Never, kind) else { return; };
+    let base = match twin(base_ctx, Discard::Never, kind) { Ok(b) => b, Err(p) => { r.violation(format!("render-panic|reference-run|{tag}"), p, case()); return; } };
     // (1) masks
     if !ctx.color_write && (0..px).any(|p| out.color[p] != color_sentinel(p)) { r.violation(format!("color-write-off-but-written|{tag}"), "colour buffer modified although color_write = false".into(), case()); return; }
     if has_depth && !ctx.depth_write && (0..px).any(|p| out.depth.as_ref().unwrap()[p].to_bits() != depth_sentinel(p).to_bits()) { r.violation(format!("depth-write-off-but-written|{tag}"), "depth buffer modified although depth_write = false".into(), case()); return; }
@@ -730,7 +757,7 @@ fn check_config(scene: &Scene, flags: u32, discard: Discard, kind: TargetKind, r
     // ... whatever the depth buffer held before, NaN included (a comparison with NaN is false for every predicate)
     if has_depth && ctx.depth_test.is_none() && ctx.color_write {
         let (pc, pd): (Vec<u32>, Vec<f32>) = ((0..px).map(color_sentinel).collect(), (0..px).map(|p| if p % 2 == 0 { f32::NAN } else { depth_sentinel(p) }).collect());
-        if let Ok(t) = render_scene(scene, None, Door::Render, kind, &ctx, discard, Some((&pc, &pd))) {
+        if let Ok(t) = render_scene(scene, None, door, kind, &ctx, discard, Some((&pc, &pd))) {
             if t.color != out.color || t.invocations != out.invocations { r.violation(format!("test-off-nan-depth-rejects|{tag}"), format!("depth test disabled: with NaN already in the depth buffer {} fragments were shaded instead of {} and the colour buffer differs", t.invocations, out.invocations), case()); return; }
         }
     }
@@ -765,7 +792,7 @@ fn check_config(scene: &Scene, flags: u32, discard: Discard, kind: TargetKind, r
         let (mut po, mut fi, mut ok) = (0usize, 0usize, true);
         for (k, t) in scene.tris.iter().enumerate() {
             let key: Vec<u32> = t.v.iter().flatten().map(|c| c.to_bits()).collect();
-            let e = match memo.get(&key) { Some(e) => *e, None => match render_scene(scene, Some(&[k]), Door::Render, kind, &ctx, discard, None) { Ok(o) => { let e = (o.stats.prims.o, o.stats.frags.i); memo.insert(key, e); e } Err(_) => { ok = false; break; } } };
+            let e = match memo.get(&key) { Some(e) => *e, None => match render_scene(scene, Some(&[k]), door, kind, &ctx, discard, None) { Ok(o) => { let e = (o.stats.prims.o, o.stats.frags.i); memo.insert(key, e); e } Err(_) => { ok = false; break; } } };
             po += e.0; fi += e.1;
         }
         if ok && st.prims.o != po { bad.push(format!("prims.o={} but the triangles rendered one per call give {} in total", st.prims.o, po)); }
@@ -812,7 +839,7 @@ fn check_cull_small_in(bw: u32, bh: u32, cx: u32, cy: u32, size: f32, shape: usi
     let (Ok(fa), Ok(fb)) = (draw(&t, None), draw(&rev, None)) else { r.violation(format!("render-panic|{tag}"), "render panicked".into(), case()); return; };
     if fa == 0 || fb == 0 { r.violation(format!("cull-off-one-order-missing|small|{tag}"), format!("culling off: the two vertex orders of a {size} px triangle around a pixel centre (margin {margin:.4} px) produced {fa} and {fb} fragments"), case()); return; }
     for (mode, name) in [(FaceCull::Back, "Back"), (FaceCull::Front, "Front")] {
-        let (Ok(fa), Ok(fb)) = (draw(&t, Some(mode)), draw(&rev, Some(mode))) else { return; };
+        let (Ok(fa), Ok(fb)) = (draw(&t, Some(mode)), draw(&rev, Some(mode))) else { r.violation(format!("render-panic|{name}|{tag}"), "render panicked with face culling on".into(), case()); return; };
         let a_drawn_expected = match mode { FaceCull::Back => !(area2 > 0.0), FaceCull::Front => area2 > 0.0 };
         if (fa > 0) == (fb > 0) { r.violation(format!("cull-not-exactly-one|{name}|small|{tag}"), format!("face_cull = {name}: the two vertex orders of a {size} px triangle (doubled area {area2:.3e} px^2) produced {fa} and {fb} fragments (exactly one must be drawn)"), case()); return; }
         if (fa > 0) != a_drawn_expected { r.violation(format!("cull-wrong-side|{name}|small|{tag}"), format!("face_cull = {name}: wrong vertex order drawn for a {size} px triangle"), case()); return; }
@@ -829,8 +856,7 @@ fn check_cull(t: &STri, bw: u32, bh: u32, vp: (u32, u32, u32, u32), kind: Target
     let draw = |tri: &STri, cull: Option<FaceCull>| render_scene(&Scene { tris: vec![tri.clone()], bw, bh, vp }, None, Door::Render, kind, &Context { face_cull: cull, ..Context::default() }, Discard::Never, None).map(|o| (o.stats.frags.i, o.color));
     let case = || obj! {"kind" => "cull", "scene" => scene_json(&Scene { tris: vec![t.clone()], bw, bh, vp }), "target" => format!("{kind:?}")};
     let tag = format!("{kind:?}|{bw}x{bh}vp{vp:?}|{:?}", t.v);
-    let Ok((fa_none, ca_none)) = draw(t, None) else { return; };
-    let Ok((fb_none, cb_none)) = draw(&rev, None) else { return; };
+    let (Ok((fa_none, ca_none)), Ok((fb_none, cb_none))) = (draw(t, None), draw(&rev, None)) else { r.violation(format!("render-panic|cull-off|{tag}"), "render panicked".into(), case()); return; };
     if fa_none == 0 { return; }
     // only triangles with at least one pixel centre unambiguously inside (for both re-triangulations) are judged:
     // a triangle touching pixel centres with its edges only may legitimately yield fragments for one order and none for the other
@@ -848,7 +874,7 @@ fn check_cull(t: &STri, bw: u32, bh: u32, vp: (u32, u32, u32, u32), kind: Target
     let orc_rev = Oracle::new(&rev_scene);
     for j in 0..bh { for i in 0..bw { let p = (j * bw + i) as usize; if matches!(orc.pixel(i, j), Truth::Inside { .. } | Truth::Outside) && matches!(orc_rev.pixel(i, j), Truth::Inside { .. } | Truth::Outside) { let (a, b) = (ca_none[p] != color_sentinel(p), cb_none[p] != color_sentinel(p)); if a != b { r.violation(format!("cull-off-orders-differ|{tag}"), format!("pixel ({i},{j}) is drawn for one vertex order only although culling is off"), case()); return; } } } }
     for (mode, name) in [(FaceCull::Back, "Back"), (FaceCull::Front, "Front")] {
-        let (Ok((_, ca)), Ok((_, cb))) = (draw(t, Some(mode)), draw(&rev, Some(mode))) else { return; };
+        let (Ok((_, ca)), Ok((_, cb))) = (draw(t, Some(mode)), draw(&rev, Some(mode))) else { r.violation(format!("render-panic|{name}|{tag}"), "render panicked with face culling on".into(), case()); return; };
         // "drawn" = drawn at a pixel that is unambiguously inside: fragments on edge pixels may come from zero-area fan
         // triangles of the clipped polygon whose winding is rounding noise
         let inside_drawn = |c: &Vec<u32>| (0..bh).flat_map(|j| (0..bw).map(move |i| (i, j))).filter(|&(i, j)| { let p = (j * bw + i) as usize; c[p] != color_sentinel(p) && matches!(orc.pixel(i, j), Truth::Inside { .. }) && matches!(orc_rev.pixel(i, j), Truth::Inside { .. }) }).count();
@@ -913,8 +939,13 @@ fn check_solid_culling(si: usize, vi: usize, r: &mut Report) {
 
 /// statistics accumulate over calls, including calls in which nothing survives, and through the Batch door
 fn check_accumulation(sc: &Scene, si: usize, hidden_tri: &STri, rep: &mut Report) {
+    // the context's statistics start from Stats::new() (the default) or from Stats::start() (a running timer, as the
+    // documentation suggests for timing frames): what is accumulated must not depend on that
+    for timed in [false, true] { check_accumulation_from(sc, si, hidden_tri, timed, rep); }
+}
+fn check_accumulation_from(sc: &Scene, si: usize, hidden_tri: &STri, timed: bool, rep: &mut Report) {
     rep.eval();
-    let ctx = ctx_plain();
+    let ctx = if timed { Context { stats: std::cell::RefCell::new(re::render::stats::Stats::start()), ..ctx_plain() } } else { ctx_plain() };
     let hidden = Scene { tris: vec![hidden_tri.clone()], ..sc.clone() };
     let a = render_scene(sc, None, Door::Render, TargetKind::Owned, &ctx, Discard::Never, None);
     let b = render_scene(&hidden, None, Door::Render, TargetKind::Owned, &ctx, Discard::Never, None);
@@ -924,7 +955,7 @@ fn check_accumulation(sc: &Scene, si: usize, hidden_tri: &STri, rep: &mut Report
         let tot = ctx.stats.borrow().clone();
         let okc = tot.calls == 4.0 && b.stats.calls == 1.0 && e.stats.calls == 1.0 && b.stats.prims.i == 1 && b.stats.prims.o == 0 && b.stats.verts.i == 3 && e.stats.prims.i == 0;
         let oks = tot.prims.i == a.stats.prims.i + 1 + c.stats.prims.i && tot.frags.i == a.stats.frags.i + c.stats.frags.i && tot.frags.o == a.stats.frags.o + c.stats.frags.o && tot.prims.o == a.stats.prims.o + c.stats.prims.o && a.stats.frags.i == c.stats.frags.i;
-        if !okc || !oks { rep.violation(format!("stats-accumulation|scene{si}|{}", short(sc)), format!("after 4 calls (scene, fully hidden triangle, empty list, scene via Batch): calls={} prims={}/{} frags={}/{}; per call: {:?} {:?} {:?} {:?}", tot.calls, tot.prims.i, tot.prims.o, tot.frags.i, tot.frags.o, (a.stats.calls, a.stats.prims.i, a.stats.prims.o), (b.stats.calls, b.stats.prims.i, b.stats.prims.o), (e.stats.calls, e.stats.prims.i), (c.stats.calls, c.stats.prims.i, c.stats.prims.o)), obj! {"kind" => "accum", "scene" => scene_json(sc)}); } else { rep.nontrivial(); }
+        if !okc || !oks { rep.violation(format!("stats-accumulation|scene{si}{}|{}", if timed { "|from Stats::start()" } else { "" }, short(sc)), format!("after 4 calls (scene, fully hidden triangle, empty list, scene via Batch): calls={} prims={}/{} frags={}/{}; per call: {:?} {:?} {:?} {:?}", tot.calls, tot.prims.i, tot.prims.o, tot.frags.i, tot.frags.o, (a.stats.calls, a.stats.prims.i, a.stats.prims.o), (b.stats.calls, b.stats.prims.i, b.stats.prims.o), (e.stats.calls, e.stats.prims.i), (c.stats.calls, c.stats.prims.i, c.stats.prims.o)), obj! {"kind" => "accum", "scene" => scene_json(sc)}); } else { rep.nontrivial(); }
     }
 }
 
@@ -969,7 +1000,7 @@ fn run_config(cfg: &Cfg) -> ! {
         let (s, f, d, k) = (i % ns, (i / ns % 144) as u32, i / ns / 144 % 3, i / ns / 432);
         let sc = &scenes[s as usize];
         if sc.vp.0 > sc.vp.2 { return; } // mirrored viewports only for the culling check
-        check_config(sc, f, [Discard::Never, Discard::Always, Discard::Parity][d as usize], [TargetKind::Owned, TargetKind::ColorOnly][k as usize], r);
+        check_config_door(sc, f, [Discard::Never, Discard::Always, Discard::Parity][d as usize], [TargetKind::Owned, TargetKind::ColorOnly][k as usize], DOORS[((s + f as u64 + d) % 3) as usize], r);
     }));
     // culling: every visible pool/lattice triangle x viewports incl. axis-mirrored ones x target kinds
     let mut tris: Vec<STri> = pool.clone();
@@ -1014,6 +1045,8 @@ fn main() {
                     check_safety(&t, SafetyCfg { proj: g("proj") as u8, bw: g("bw"), bh: g("bh"), vp: (vp[0], vp[1], vp[2], vp[3]), flags: g("flags"), sub: c.get("sub") == Some(&J::Bool(true)) }, r)
                 }
                 "default-ctx" => check_default_context_large(c.get("i").unwrap().as_u64().unwrap(), r),
+                "painter-scale" => check_painter_scale(c.get("n").unwrap().as_u64().unwrap() as usize, r),
+                "order-ulp" => check_order_ulp(c.get("i").unwrap().as_u64().unwrap(), r),
                 "safety-camera" => {
                     let f: Vec<f32> = c.get("verts").unwrap().as_arr().unwrap().iter().map(|x| parse_fbits(x).unwrap()).collect();
                     let t: Vec<[f32; 3]> = f.chunks(3).map(|c| [c[0], c[1], c[2]]).collect();
@@ -1022,7 +1055,7 @@ fn main() {
                     check_safety_camera(&t, (d[0], d[1]), (q[0], q[1], q[2], q[3]), r)
                 }
                 "order" | "painter" => explore_order(&scene_from(c.get("scene").unwrap()), r, 0, if c.get("discard").and_then(|j| j.as_str()) == Some("Parity") { Discard::Parity } else { Discard::Never }),
-                "config" => check_config(&scene_from(c.get("scene").unwrap()), c.get("flags").unwrap().as_u64().unwrap() as u32, match c.get("discard").and_then(|j| j.as_str()).unwrap_or("") { "Always" => Discard::Always, "Parity" => Discard::Parity, _ => Discard::Never }, kind(c), r),
+                "config" => check_config_door(&scene_from(c.get("scene").unwrap()), c.get("flags").unwrap().as_u64().unwrap() as u32, match c.get("discard").and_then(|j| j.as_str()).unwrap_or("") { "Always" => Discard::Always, "Parity" => Discard::Parity, _ => Discard::Never }, kind(c), match c.get("door").and_then(|j| j.as_str()).unwrap_or("") { "Batch" => Door::Batch, "Camera" => Door::Camera, _ => Door::Render }, r),
                 "accum" => { let pool = order_pool(); check_accumulation(&scene_from(c.get("scene").unwrap()), 0, &pool[10], r) }
                 "solid" => check_solid_culling(c.get("solid").unwrap().as_u64().unwrap() as usize, c.get("view").unwrap().as_u64().unwrap() as usize, r),
                 "cull" => { let s = scene_from(c.get("scene").unwrap()); check_cull(&s.tris[0], s.bw, s.bh, s.vp, kind(c), r) }
